@@ -61,6 +61,7 @@ type Ctx struct {
 	wantControls []string
 	termMemo     map[ssa.Value]string
 	termBusy     map[ssa.Value]bool
+	tableCovered map[string]string // function name -> key of the finite table that walked it and passed
 	eff          *effects
 }
 
